@@ -78,6 +78,17 @@ func atLeastOne(v ssa.Value, depth int, seen map[ssa.Value]bool) bool {
 				}
 			}
 		}
+		if b, ok := x.Call.Value.(*ssa.Builtin); ok && b.Name() == "min" && len(x.Call.Args) > 0 {
+			all := true
+			for _, a := range x.Call.Args {
+				if !atLeastOne(a, depth+1, seen) {
+					all = false
+				}
+			}
+			if all {
+				return true
+			}
+		}
 		// a helper whose every returned value is at least one ("rate floor" helpers)
 		if f := x.Call.StaticCallee(); f != nil && f.Blocks != nil && depth < 6 {
 			n := 0
